@@ -55,6 +55,9 @@ var (
 	ErrUnknownFormat = errors.New("unknown attestation format")
 	// ErrEventLogPathEmpty is returned when the event log path in Options is empty.
 	ErrEventLogPathEmpty = errors.New("event log path is empty")
+	// ErrNoMeasurement is returned when the endorsement would have to be fetched but no quote with a
+	// full-length measurement is available to derive its object name from.
+	ErrNoMeasurement = errors.New("no full-length measurement to derive the endorsement object name from")
 )
 
 const (
@@ -154,16 +157,28 @@ func (opts *Options) fromEventLog() ([]byte, error) {
 	return nil, fmt.Errorf("matching sp800155 firmware manufacturer %v not found", opts.FirmwareManufacturer)
 }
 
+// fromSevSnpAttestationProto returns the endorsement carried in the attestation's certificate
+// table, if any, and the object name derived from the report's measurement. The object name is
+// empty unless the measurement is full length.
 func fromSevSnpAttestationProto(at *spb.Attestation) ([]byte, string, error) {
-	if out, err := extractsev.FromAttestation(at); err == nil {
-		return out, "", nil
+	var objectName string
+	if meas := at.GetReport().GetMeasurement(); len(meas) == abi.MeasurementSize {
+		objectName = extractsev.GCETcbObjectName(sev.GCEUefiFamilyID, meas)
 	}
-	meas := at.GetReport().GetMeasurement()
-	return nil, extractsev.GCETcbObjectName(sev.GCEUefiFamilyID, meas), nil
+	if out, err := extractsev.FromAttestation(at); err == nil {
+		return out, objectName, nil
+	}
+	return nil, objectName, nil
 }
 
+// fromTdxAttestationProto returns the object name derived from the quote's MRTD. The object name
+// is empty unless the MRTD is full length.
 func fromTdxAttestationProto(at *tpb.QuoteV4) string {
-	return extracttdx.GCETcbObjectName(at.GetTdQuoteBody().GetMrTd())
+	mrtd := at.GetTdQuoteBody().GetMrTd()
+	if len(mrtd) != tabi.MrTdSize {
+		return ""
+	}
+	return extracttdx.GCETcbObjectName(mrtd)
 }
 
 // Attestation will try to deserialize a given attestation in any of the supported formats and
@@ -289,6 +304,9 @@ func Endorsement(opts *Options) (out []byte, err error) {
 	// Then try the internet.
 	if opts.Getter == nil {
 		internetErr = ErrGetterNil
+	} else if objectName == "" {
+		// Never ask for the bucket root or for an object named after a truncated measurement.
+		internetErr = ErrNoMeasurement
 	} else {
 		endorsement, internetErr = opts.Getter.Get(verify.GCETcbURL(objectName))
 		if internetErr == nil {
